@@ -10,7 +10,8 @@ CONSTANTS NRows, NCols,      \* rows, column-words per row (request address = ro
           Depth,             \* cmd_buffer_depth >= 2
           tRP, tRCD, tWTP, tRC, tRAS,   \* sys cycles; 0 encodes "None" for tRC/tRAS
           CntBitsWTP, CntBitsRC, CntBitsRAS,
-          AutoPre
+          AutoPre,
+          RefWaitsTras       \* TRUE = the code (fix 7014c8e); FALSE = negative control: refresh granted on tWTP alone
 VARIABLES q, bufv, buf, row, rowOpened, fsm, dly, twtpR, twtpC, trcR, trcC, trasR, trasC, in
 regs == <<q, bufv, buf, row, rowOpened, fsm, dly, twtpR, twtpC, trcR, trcC, trasR, trasC>>
 vars == <<regs, in>>
@@ -45,7 +46,7 @@ we  == (inRegularIssue /\ buf.we) \/ prechargeIssue
 accept == cmdValid /\ in.cmdready
 wdataReady == isWrite /\ in.cmdready
 rdataValid == isRead /\ in.cmdready
-refGnt == fsm = "REFRESH" /\ twtpR /\ trasR           \* (trasR: fix 7014c8e)
+refGnt == fsm = "REFRESH" /\ twtpR /\ (trasR \/ ~RefWaitsTras)
 bufAddr == IF bufv THEN buf.addr ELSE 0
 cmdA == IF activateIssue THEN RowOf(bufAddr)
         ELSE (IF autoPre THEN 1024 ELSE 0) + ColOf(bufAddr) * P2(Align)
